@@ -48,6 +48,13 @@ BASES = [
          {"requests": [{"n": 2000, "k": "gen", "w": 400}, {"n": 10, "k": "cl", "close": True}], "sndbuf": 512},
          {"requests": [{"n": 50, "k": "cl"}], "sndbuf": 512, "delay": 0.2},
      ], "bystander": 1},
+    # a file-backed output buffer above a small watermark, pipelined: between two requests the worker
+    # tests the backlog without the lock (service loop) while the I/O thread may tear the channel down
+    {"adj": {"threads": 1, "channel_request_lookahead": 0, "send_bytes": 1, "outbuf_high_watermark": 512}, "sndbuf": 512,
+     "conns": [
+         {"requests": [{"n": 1500, "k": "fw"}, {"n": 700, "k": "write", "w": 300}, {"n": 10, "k": "cl", "close": True}], "sndbuf": 512},
+         {"requests": [{"n": 50, "k": "cl"}], "sndbuf": 512, "delay": 0.2},
+     ], "bystander": 1},
 ]
 
 
@@ -290,12 +297,13 @@ def run_shard(spec):
     elif spec["mode"] == "fault-enum":
         # for each client-disconnect placement on a send of the watermark scenario: the pilot
         # schedule with that fault, then every single pre-emption of it (capped)
-        scn = BASES[1]
-        o = run(scn, {"kind": "np"}, {}, record=True)
-        sends = [c for c in o.rec.calls if c[0] == 0 and c[1] == "send"]
-        R.finish(o)
         k = 0
-        for cid, op, n in sends:
+        todo = []
+        for scn in (BASES[1], BASES[2]):
+            o = run(scn, {"kind": "np"}, {}, record=True)
+            todo += [(scn,) + c for c in o.rec.calls if c[0] == 0 and c[1] == "send"]
+            R.finish(o)
+        for scn, cid, op, n in todo:
             for kind in ("CLOSE", "RST", errno.ETIMEDOUT):
                 k += 1
                 if k % spec["parts"] != spec["part"]:
@@ -303,12 +311,23 @@ def run_shard(spec):
                 faults = {(cid, op, n): kind}
                 o = R.run_scenario(dict(scn, faults={fkey(kk): v for kk, v in faults.items()}), {"kind": "np"}, pilot=True)
                 points = R.single_preemptions(o.pilot)
+                workers = {t.tid for t in o.world.sched.threads if t.role == "worker"}
+                # every pre-emption of a worker inside the channel's service loop / its blocking flush
+                # (where it tests the channel's state before taking the lock), the rest sampled
+                focus = set()
+                for step, tids, site, cur in o.pilot:
+                    name = str(site[0]) if site else ""
+                    if cur in workers and name in ("service", "_flush_outbufs_below_high_watermark"):
+                        focus.update((step, t) for t in tids)
                 R.finish(o)
+                acc.count("fault-enum-focus-points", len(focus))
                 rng = random.Random(spec["seed"] * 31 + k)
-                if len(points) > spec["cap"]:
-                    points = sorted(rng.sample(points, spec["cap"]))
+                rest = [pt for pt in points if pt not in focus]
+                if len(rest) > spec["cap"]:
+                    rest = rng.sample(rest, spec["cap"])
+                points = sorted(focus | set(rest))
                 for step, tid in points:
-                    run_one(acc, scn, {"kind": "forced", "switches": {str(step): tid}}, faults, f"fe|{fkey((cid, op, n))}|{kind}|{step}|{tid}")
+                    run_one(acc, scn, {"kind": "forced", "switches": {str(step): tid}}, faults, f"fe|{BASES.index(scn)}|{fkey((cid, op, n))}|{kind}|{step}|{tid}")
                     acc.count("fault-enum-runs")
     else:
         rng = random.Random(spec["seed"])
